@@ -5,8 +5,12 @@
    (format documented in harness/src/bin/dense.rs) and prints one verdict line per case:
      <id> OK | <id> PROPFAIL <why> | <id> DIFF <why>
    PROPFAIL is decided by the extracted checker [check_C19] (proved sound and complete
-   for the specification relation trace_ok: C19_check_sound / C19_check_complete); the
-   text after PROPFAIL is only a diagnosis computed here.  DIFF: the observation is
+   for the specification relation trace_ok: C19_check_sound / C19_check_complete) and by
+   nothing else: the positional iterator calls (STEPS item) are the field f_steps of the
+   final observation, an observer panic is the observation ObsBroken (never accepted:
+   C19_check_rejects_observer_panic), row addresses are data decided by check_mobs, and for
+   T=f32 the element == is f32c_eqb on cell codes (NaN, -0.0).  The text after PROPFAIL is
+   only a diagnosis computed here.  DIFF: the observation is
    accepted by the property but differs from the struct-level model (DenseReg:
    data vector + rows field + capacity bound, junk in the padding). *)
 open Dense_model
@@ -84,11 +88,13 @@ let default_pat = "1011011011011011"
 
 exception Bad of string
 
-(* one matrix: rows|stride|aligned|ravelok|capacity|contents|uniform -> (mobs, (capacity, uniform value of ravel())) *)
+(* one matrix: rows|stride|addrs|ravelok|capacity|contents|uniform -> (mobs, (capacity, uniform value of ravel())) *)
 let parse_mobs s =
   match String.split_on_char '|' s with
   | [rows; strd; al; rav; cap; contents; uni] ->
-      ({ ob_rows = nat rows; ob_stride = nat strd; ob_aligned = (al = "1"); ob_ravel = (rav = "1");
+      ({ ob_rows = nat rows; ob_stride = nat strd;
+         ob_addrs = (if al = "-" then [] else List.map zed (split ',' al));
+         ob_ravel = (rav = "1");
          ob_cells = parse_rows contents },
        (int_of_string cap,
         if String.length uni > 1 && uni.[0] = 'U' then Some (int_of_string (String.sub uni 1 (String.length uni - 1))) else None))
@@ -104,61 +110,67 @@ let parse_robs s =
   if String.length e < 1 || e.[0] <> 'E' || String.length n < 1 || n.[0] <> 'N' then raise (Bad ("bad-observation " ^ s));
   ({ ob_regs = List.map fst ms; ob_eq = parse_bits e; ob_ne = parse_bits n }, List.map snd ms)
 
-let parse_fobs s =
+(* positional iterator calls: STEPS item of one register *)
+let parse_sobs s : int * z sobs =
+  match String.split_on_char '|' s with
+  | [w1; w2; w3; lens; k; sk; rsk; sb; rsb; msk; last; count] ->
+      (int_of_string k,
+       { so_walk = parse_opt_rows w1; so_walk_mut = parse_opt_rows w2; so_walk_into = parse_opt_rows w3;
+         so_lens = List.map nat (split ',' lens);
+         so_skip = parse_rows sk; so_rev_skip = parse_rows rsk; so_step_by = parse_rows sb;
+         so_rev_step_by = parse_rows rsb; so_mut_rev_skip = parse_rows msk;
+         so_last = (match parse_opt_rows last with [x] -> x | _ -> raise (Bad "bad-last-observation"));
+         so_count = nat count })
+  | _ -> raise (Bad ("bad-steps-observation " ^ s))
+
+let bit s i = if i < String.length s && (s.[i] = '0' || s.[i] = '1') then s.[i] = '1' else raise (Bad ("bad-bits " ^ s))
+
+let parse_fobs s (st : z sobs) =
   match String.split_on_char '|' s with
   | [it; rv; into; intomut; mixed; mixedmut; mixedinto; lens; eqc; eqp; eqm] ->
+      if String.length eqc <> 2 || String.length eqp <> 3 then raise (Bad ("bad-final-observation " ^ s));
       { f_iter = parse_rows it; f_rev = parse_rows rv; f_into = parse_rows into; f_into_mut = parse_rows intomut;
         f_mixed = parse_opt_rows mixed; f_mixed_mut = parse_opt_rows mixedmut; f_mixed_into = parse_opt_rows mixedinto;
         f_lens = List.map nat (split ',' lens);
-        f_eqclone = (eqc = "1"); f_eqpad = (eqp = "1"); f_eqmod = (eqm = "1") }
+        f_eqclone = bit eqc 0; f_neclone = bit eqc 1;
+        f_eqpad = bit eqp 0; f_eqpad' = bit eqp 1; f_nepad = bit eqp 2;
+        f_eqmod = (eqm = "1"); f_steps = st }
   | _ -> raise (Bad ("bad-final-observation " ^ s))
 
 let starts_with p s = String.length s >= String.length p && String.sub s 0 (String.length p) = p
 
 (* diagnosis of a rejected per-op observation (text only) *)
-let why_robs s (regs : z list list list) (o : z robs) =
+let why_robs f32 s size align (regs : z list list list) (o : z robs) =
   let si = int_of_nat s in
+  let teq a b = z_treqb f32 a b in
   let buf = ref "" in
   let set x = if !buf = "" then buf := x in
   if List.length o.ob_regs <> List.length regs then set "register-count";
   List.iteri (fun k (t, m) ->
-      if not (z_check_mobs s t m) then begin
+      if not (z_check_mobs s size align t m) then begin
         if int_of_nat m.ob_rows <> List.length t then
           set (Printf.sprintf "r%d rows %d expected %d" k (int_of_nat m.ob_rows) (List.length t))
         else if m.ob_cells <> t then set (Printf.sprintf "r%d contents" k)
         else if int_of_nat m.ob_stride <> si then
           set (Printf.sprintf "r%d stride %d expected %d" k (int_of_nat m.ob_stride) si)
-        else if not m.ob_aligned then set (Printf.sprintf "r%d row-not-aligned" k)
+        else if List.length m.ob_addrs <> List.length t then set (Printf.sprintf "r%d row-address-count" k)
+        else if List.exists (fun a -> (int_of_z a) mod (int_of_nat align) <> 0) m.ob_addrs then set (Printf.sprintf "r%d row-not-aligned" k)
+        else if m.ob_ravel then set (Printf.sprintf "r%d row-spacing-is-not-the-stride" k)
         else set (Printf.sprintf "r%d ravel-layout" k)
       end)
     (try List.combine regs o.ob_regs with _ -> []);
   let pairs = List.concat_map (fun a -> List.map (fun b -> (a, b)) regs) regs in
   (try
      List.iteri (fun i ((a, b), e) ->
-         if e <> (a = b) then set (Printf.sprintf "eq r%d==r%d is %b but logical cells %s" (i / nreg) (i mod nreg) e
-                                     (if a = b then "equal" else "differ")))
+         if e <> teq a b then set (Printf.sprintf "eq r%d==r%d is %b but logical cells %s" (i / nreg) (i mod nreg) e
+                                     (if teq a b then "equal" else if a = b then "hold a value that is not == to itself (NaN)" else "differ")))
        (List.combine pairs o.ob_eq);
      List.iteri (fun i ((a, b), e) ->
-         if e <> (a <> b) then set (Printf.sprintf "ne r%d!=r%d is %b but logical cells %s" (i / nreg) (i mod nreg) e
-                                      (if a = b then "equal" else "differ")))
+         if e <> not (teq a b) then set (Printf.sprintf "ne r%d!=r%d is %b but logical cells %s" (i / nreg) (i mod nreg) e
+                                      (if teq a b then "equal" else if a = b then "hold a value that is not == to itself (NaN)" else "differ")))
        (List.combine pairs o.ob_ne)
    with _ -> set "eq-matrix-size");
   if !buf = "" then "observation" else !buf
-
-let why_fobs cn pat (t : z list list) (f : z fobs) =
-  let exp = z_take_mixed_o pat t in
-  if f.f_iter <> t then "iter-order"
-  else if f.f_rev <> List.rev t then "rev-iter-order"
-  else if f.f_into <> t then "into-iter-order"
-  else if f.f_into_mut <> t then "into-iter-mut-order"
-  else if f.f_mixed <> exp then "double-ended-iter"
-  else if f.f_mixed_mut <> exp then "double-ended-iter-mut"
-  else if f.f_mixed_into <> exp then "double-ended-into-iter"
-  else if f.f_lens <> mixed_lens pat (nat_of_int (List.length t)) then "iterator-len"
-  else if not f.f_eqclone then "clone-not-equal"
-  else if not f.f_eqpad then "eq-depends-on-padding-or-capacity"
-  else if f.f_eqmod <> (t = [] || int_of_nat cn = 0) then "eq-ignores-logical-cell"
-  else "final-observation"
 
 (* ---- positional iterator calls (DenseSteps.v): next / next_back / nth / nth_back ---- *)
 let parse_steps s : istep list =
@@ -172,30 +184,42 @@ let parse_steps s : istep list =
 let somes l = List.filter_map (fun x -> x) l
 let rec repeat x n = if n <= 0 then [] else x :: repeat x (n - 1)
 
-(* why a STEPS observation of one register differs from the model, "" when it agrees.
-   Every expectation is the extracted [take_steps] / [steps_lens] (C19_iteration_steps: the rows the
-   shrinking index window designates; C19_iteration_skip_adaptors for skip / rev().skip). *)
-let why_steps (steps : istep list) (t : z list list) (o : string) : string =
-  match String.split_on_char '|' o with
-  | [w1; w2; w3; lens; k; sk; rsk; sb; rsb; msk; last; count] ->
-      let n = List.length t in
-      let exp = z_take_steps steps t in
-      let k = int_of_string k in
-      let kn = nat_of_int k in
-      let walk p = somes (z_take_steps p t) in
-      if parse_opt_rows w1 <> exp then "iter-steps"
-      else if parse_opt_rows w2 <> exp then "iter_mut-steps"
-      else if parse_opt_rows w3 <> exp then "into_iter-steps"
-      else if List.map int_of_string (split ',' lens) <> List.map int_of_nat (steps_lens steps (nat_of_int n)) then "len-after-steps"
-      else if parse_rows sk <> walk (SNth kn :: repeat SNext n) then "skip"
-      else if parse_rows rsk <> walk (SNthBack kn :: repeat SBack n) then "rev-skip"
-      else if parse_rows sb <> walk (SNext :: repeat (SNth kn) n) then "step_by"
-      else if parse_rows rsb <> walk (SBack :: repeat (SNthBack kn) n) then "rev-step_by"
-      else if parse_rows msk <> walk (SNthBack kn :: repeat SBack n) then "iter_mut-rev-skip"
-      else if parse_opt_rows last <> z_take_steps [SBack] t then "last"
-      else if int_of_string count <> n then "count"
-      else ""
-  | _ -> "steps-observation-format"
+(* diagnosis text for a STEPS observation the checker [check_steps] rejected *)
+let why_steps (steps : istep list) (t : z list list) (o : z sobs) : string =
+  let n = List.length t in
+  let exp = z_take_steps steps t in
+  let kn = steps_k steps in
+  let walk p = somes (z_take_steps p t) in
+  if o.so_walk <> exp then "iter-steps"
+  else if o.so_walk_mut <> exp then "iter_mut-steps"
+  else if o.so_walk_into <> exp then "into_iter-steps"
+  else if o.so_lens <> steps_lens steps (nat_of_int n) then "len-after-steps"
+  else if o.so_skip <> walk (SNth kn :: repeat SNext n) then "skip"
+  else if o.so_rev_skip <> walk (SNthBack kn :: repeat SBack n) then "rev-skip"
+  else if o.so_step_by <> walk (SNext :: repeat (SNth kn) n) then "step_by"
+  else if o.so_rev_step_by <> walk (SBack :: repeat (SNthBack kn) n) then "rev-step_by"
+  else if o.so_mut_rev_skip <> walk (SNthBack kn :: repeat SBack n) then "iter_mut-rev-skip"
+  else if [o.so_last] <> z_take_steps [SBack] t then "last"
+  else if int_of_nat o.so_count <> n then "count"
+  else "steps"
+
+let why_fobs f32 cn pat steps (t : z list list) (f : z fobs) =
+  let exp = z_take_mixed_o pat t in
+  let self = z_treqb f32 t t in
+  if f.f_iter <> t then "iter-order"
+  else if f.f_rev <> List.rev t then "rev-iter-order"
+  else if f.f_into <> t then "into-iter-order"
+  else if f.f_into_mut <> t then "into-iter-mut-order"
+  else if f.f_mixed <> exp then "double-ended-iter"
+  else if f.f_mixed_mut <> exp then "double-ended-iter-mut"
+  else if f.f_mixed_into <> exp then "double-ended-into-iter"
+  else if f.f_lens <> mixed_lens pat (nat_of_int (List.length t)) then "iterator-len"
+  else if f.f_eqclone <> self || f.f_neclone <> not self then
+    (if self then "clone-not-equal" else "clone-equal-although-a-cell-is-not-equal-to-itself")
+  else if f.f_eqpad <> self || f.f_eqpad' <> self || f.f_nepad <> not self then "eq-depends-on-padding-or-capacity"
+  else if f.f_eqmod <> (t = [] || int_of_nat cn = 0) then "eq-ignores-logical-cell"
+  else if not (z_check_steps steps t f.f_steps) then "iterator-positional-calls " ^ why_steps steps t f.f_steps
+  else "final-observation"
 
 let () =
   try
@@ -215,35 +239,48 @@ let () =
           let size = int_of_string (get "size") in
           let c = int_of_string (get "C") in
           let align = int_of_string (get "align") in
+          let f32 = (get "T" = "f32") in
+          let steps = parse_steps (try get "steps" with Not_found -> "") in
+          let sizen = nat_of_int size and alignn = nat_of_int align in
           let pat_s = (try get "pat" with Not_found -> default_pat) in
           let pat = List.init (String.length pat_s) (fun i -> pat_s.[i] = '1') in
           let ops = List.map parse_rop (split ';' (get "ops")) in
           let opnames = Array.of_list (split ';' (get "ops")) in
           let opname i = if i < Array.length opnames then opnames.(i) else "?" in
           let cn = nat_of_int c in
-          let s = stride (nat_of_int size) cn (nat_of_int align) in
+          let s = stride sizen cn alignn in
           let items = split ';' obs in
           let steps_items = List.filter (starts_with "STEPS") items in
           let items = List.filter (fun x -> not (starts_with "STEPS" x)) items in
-          (* observer panics are violations by themselves (an observer of a matrix the
-             operation returned normally must not panic) *)
-          List.iteri (fun i it -> if it = "OBSPANIC" then
-                         set_v (Printf.sprintf "PROPFAIL op%d %s observer-panicked-after-the-operation" i (opname i))) items;
-          if !verdict = "OK" then begin
+          begin
             let fin_items = List.filter (starts_with "END&") items in
             let op_items = List.filter (fun x -> not (starts_with "END&" x)) items in
-            let fin = match fin_items with
-              | [f] -> Some (List.map parse_fobs (String.split_on_char '&' (String.sub f 4 (String.length f - 4))))
-              | [] -> None
+            (* an observer that panicked after the operation returned is the observation ObsBroken;
+               when the final observers panicked there is no final observation: both are rejected by check_C19 *)
+            let final_panicked = steps_items = ["STEPSPANIC"]
+                                 || (fin_items = [] && List.length op_items = List.length ops + 1
+                                     && List.nth op_items (List.length ops) = "OBSPANIC") in
+            let op_items = if List.length op_items = List.length ops + 1 && List.nth op_items (List.length ops) = "OBSPANIC"
+              then List.filteri (fun i _ -> i < List.length ops) op_items else op_items in
+            let fin = match fin_items, steps_items with
+              | _, ["STEPSPANIC"] -> None
+              | [f], [st] ->
+                  let fs = String.split_on_char '&' (String.sub f 4 (String.length f - 4)) in
+                  let ss = List.map parse_sobs (String.split_on_char '&' (String.sub st 6 (String.length st - 6))) in
+                  if List.length fs <> List.length ss then raise (Bad "steps-register-count");
+                  List.iter (fun (k, _) -> if k <> int_of_nat (steps_k steps) then raise (Bad "steps-k-mismatch")) ss;
+                  Some (List.map2 (fun f (_, st) -> parse_fobs f st) fs ss)
+              | [_], [] -> raise (Bad "missing-steps-observation")
+              | [], _ -> None
               | _ -> raise (Bad "several-final-observations") in
-            let parsed = List.map (fun x -> if x = "P" then (ObsPanic, []) else
+            let parsed = List.map (fun x -> if x = "P" then (ObsPanic, []) else if x = "OBSPANIC" then (ObsBroken, []) else
                                       let (r, caps) = parse_robs x in (ObsOk r, caps)) op_items in
             let ob = List.map fst parsed in
             let regs0 : z list list list = List.init nreg (fun _ -> []) in
             (* ---- the property: extracted, proved checker ---- *)
-            if not (z_check_C19 cn s pat regs0 ops ob fin) then begin
+            if not (z_check_C19 f32 cn s sizen alignn pat steps regs0 ops ob fin) then begin
               (* diagnosis *)
-              let i = int_of_nat (z_first_bad cn s regs0 ops ob O) in
+              let i = int_of_nat (z_first_bad f32 cn s sizen alignn regs0 ops ob O) in
               let rec advance regs ops k = if k = 0 then (regs, ops) else
                   match ops with
                   | o :: rest -> (match z_rt_step cn regs o with Ok r -> advance r rest (k - 1) | _ -> (regs, ops))
@@ -254,13 +291,13 @@ let () =
                 match rest, obs_i with
                 | [], None ->
                     (match fin with
-                     | None -> "missing-final-observation"
+                     | None -> if final_panicked then "final observers-panicked" else "missing-final-observation"
                      | Some fl ->
                          if List.length fl <> List.length regs then "final-register-count" else
-                         let bad = List.filter (fun (_, (t, f)) -> not (z_check_fobs cn pat t f))
+                         let bad = List.filter (fun (_, (t, f)) -> not (z_check_fobs f32 cn pat steps t f))
                              (List.mapi (fun k x -> (k, x)) (List.combine regs fl)) in
                          (match bad with
-                          | (k, (t, f)) :: _ -> Printf.sprintf "final r%d %s" k (why_fobs cn pat t f)
+                          | (k, (t, f)) :: _ -> Printf.sprintf "final r%d %s" k (why_fobs f32 cn pat steps t f)
                           | [] -> "final-observation"))
                 | [], Some _ -> "too-many-observations"
                 | o :: _, None ->
@@ -274,7 +311,8 @@ let () =
                          else Printf.sprintf "op%d %s observations-after-panic" i (opname i)
                      | Panic _, ObsOk _ -> Printf.sprintf "op%d %s expected-panic got-result" i (opname i)
                      | Ok _, ObsPanic -> Printf.sprintf "op%d %s unexpected-panic" i (opname i)
-                     | Ok regs', ObsOk r -> Printf.sprintf "op%d %s %s" i (opname i) (why_robs s regs' r)
+                     | _, ObsBroken -> Printf.sprintf "op%d %s observer-panicked-after-the-operation" i (opname i)
+                     | Ok regs', ObsOk r -> Printf.sprintf "op%d %s %s" i (opname i) (why_robs f32 s sizen alignn regs' r)
                      | _, _ -> Printf.sprintf "op%d %s model-error" i (opname i)) in
               set_v ("PROPFAIL " ^ why)
             end else begin
@@ -286,8 +324,14 @@ let () =
                 | o :: orest, (ObsOk r, caps) :: prest ->
                     (match z_rs_step cn s (pads k) sregs o with
                      | Ok sregs' ->
-                         let mo = z_m_observe s sregs' in
-                         if List.map (fun m -> m.ob_cells) mo.ob_regs <> List.map (fun m -> m.ob_cells) r.ob_regs
+                         (* the buffer address of every register: the observed address of its first row *)
+                         let bases = List.map (fun m -> match m.ob_addrs with a :: _ -> a | [] -> Z0) r.ob_regs in
+                         let mo = z_m_observe f32 cn s sizen alignn bases sregs' in
+                         if List.map (fun m -> m.ob_addrs) mo.ob_regs <> List.map (fun m -> m.ob_addrs) r.ob_regs
+                         then set_v (Printf.sprintf "DIFF op%d struct-model-row-addresses" idx)
+                         else if List.map (fun m -> m.ob_stride) mo.ob_regs <> List.map (fun m -> m.ob_stride) r.ob_regs
+                         then set_v (Printf.sprintf "DIFF op%d struct-model-stride" idx)
+                         else if List.map (fun m -> m.ob_cells) mo.ob_regs <> List.map (fun m -> m.ob_cells) r.ob_regs
                          then set_v (Printf.sprintf "DIFF op%d struct-model-contents" idx)
                          else if List.map (fun m -> m.ob_rows) mo.ob_regs <> List.map (fun m -> m.ob_rows) r.ob_regs
                          then set_v (Printf.sprintf "DIFF op%d struct-model-rows-field" idx)
@@ -307,6 +351,7 @@ let () =
                          then set_v (Printf.sprintf "DIFF op%d fill-left-storage-cells-unwritten" idx)
                          else walk sregs' orest prest (S k) (idx + 1)
                      | _ -> set_v (Printf.sprintf "DIFF op%d struct-model-panics" idx))
+                | _, (ObsBroken, _) :: _ -> ()
                 | o :: _, (ObsPanic, _) :: _ ->
                     (match z_rs_step cn s (pads k) sregs o with
                      | Panic _ -> ()
@@ -314,28 +359,6 @@ let () =
                 | _, _ -> set_v "DIFF observation-count" in
               walk sregs0 ops parsed O 0
             end;
-            (* ---- positional iteration over the final matrices (input field steps=) ---- *)
-            (match (try Some (get "steps") with Not_found -> None), steps_items, fin with
-             | None, _, _ | _, _, None -> ()
-             | Some _, [], Some _ -> set_v "DIFF missing-steps-observation"
-             | Some _, ["STEPSPANIC"], Some _ -> set_v "PROPFAIL final iterator-steps panicked"
-             | Some st, [it], Some _ ->
-                 let steps = parse_steps st in
-                 let regs_final =
-                   List.fold_left (fun regs o -> match regs with
-                       | None -> None
-                       | Some r -> (match z_rt_step cn r o with Ok r' -> Some r' | _ -> None))
-                     (Some (List.init nreg (fun _ -> []))) ops in
-                 (match regs_final with
-                  | None -> ()
-                  | Some regs ->
-                      let obs = String.split_on_char '&' (String.sub it 6 (String.length it - 6)) in
-                      if List.length obs <> List.length regs then set_v "DIFF steps-register-count"
-                      else List.iteri (fun k (t, o) ->
-                          let w = why_steps steps t o in
-                          if w <> "" then set_v (Printf.sprintf "PROPFAIL final r%d iterator-positional-calls %s" k w))
-                          (List.combine regs obs))
-             | Some _, _, Some _ -> set_v "DIFF several-steps-observations")
           end
         with
         | Bad m -> set_v ("DIFF " ^ m)
